@@ -302,6 +302,17 @@ func genC16(c *Ctx) {
 		}
 		emitC16(c, p.name, mode, types, raw, pts)
 	}
+	// one very long gap (more than 1024 / 2048 periods): every period of it is filled, whatever its length
+	for _, gap := range []int64{1023, 1024, 1025, 2049, 2600} {
+		for _, mode := range modes {
+			for _, types := range []string{"i", "f"} {
+				d := int64(1000000000)
+				pts := []tsPoint{{tsBase, tsRowFor(types, true, nil, 0)}, {tsBase + d, tsRowFor(types, true, nil, 1)},
+					{tsBase + (gap+2)*d, tsRowFor(types, true, nil, 2)}, {tsBase + (gap+3)*d, tsRowFor(types, true, nil, 3)}}
+				emitC16(c, "fix:1000000000", mode, types, false, pts)
+			}
+		}
+	}
 	// calendar periods across daylight-saving changes: the model's period is the table of starts obtained from
 	// GetStartTime; the real gap filler steps with GetEndTime - stepping off that grid (e.g. "+24h") is a divergence.
 	for _, sp := range tsTabSpecs {
